@@ -51,7 +51,17 @@ SPEC = {
              "and 1 of 3 others a decoy is defined next to the named variable / key: a name differing only in letter case (all "
              "upper, all lower, one letter flipped; environment names are case-sensitive on linux, property keys everywhere) or by "
              "one appended / removed character; it holds the text the field accepts when the case must be rejected (a fallback "
-             "lookup would be accepted silently) and a foreign text when the named variable is defined (the exact name must win). TestMultiPlaceholders: ONE value holding 2-4 placeholders (env / property mixed, each standing for a slice "
+             "lookup would be accepted silently) and a foreign text when the named variable is defined (the exact name must win). "
+             "Spelling of what a placeholder names (TestPlaceholders, TestMultiPlaceholders, TestScenarioPlaceholders; the file path also in "
+             "TestLongProperty), class drawn first: the variable name / property key is one of the plain [A-Za-z0-9_.] names in 7 of 18 cases, "
+             "else 2-3 words joined by an INTERIOR blank / two blanks (4 of 18), a tab, a dot, a dash, another punctuation character "
+             "(: # @ / $ % + , ~ ! & * ( ) [ ] ' \" \\ | < > ? ;), or holding a non-ASCII word (cyrillic, umlaut, CJK), or a mix; the property "
+             "file lies directly in the temp dir under a plain name (4 of 9) or below a sub-directory and / or under a base name with "
+             "blanks (`load test secrets/nested dir/secret file.prop`), a tab, non-ASCII letters, dots, dashes, `:`, `@,+`, `'()`; "
+             "never `{`, `}`, `=`, a `#` in the path or a leading / trailing blank (not nameable); inside the braces no padding (7 of 11) or "
+             "`${env: N}`, `${ env : N }`, `${env:<tab>N<tab>}`, `${env:N }` (upstream's TestFindTokens and the resolver's own comment use "
+             "padded forms). The oracle is unchanged: every such name names what os.LookupEnv / the `KEY=` line of the file at PATH "
+             "holds, so the value decodes like the literal, and a name of that spelling that is unset / missing is an error. TestMultiPlaceholders: ONE value holding 2-4 placeholders (env / property mixed, each standing for a slice "
              "of the literal text, literal text possibly between them; distinct variables, property keys in a shared file or files "
              "of their own), the position kind drawn first: a string field, a duration / size / level field, an item of a string "
              "list (ammo headers, chosencases ...), a value of a string map (reflect_metadata). All placeholders resolve (2 of 5): "
@@ -114,6 +124,22 @@ SPEC = {
         "TestScenarioPlaceholders/missing_with_decoy:case_variant:env": 0.01, "TestScenarioPlaceholders/section:requests": 0.2,
         "TestScenarioPlaceholders/section:calls": 0.1, "TestScenarioPlaceholders/section:scenarios": 0.1,
         "TestScenarioPlaceholders/section:variable_sources": 0.1,
+        # classes added after seeded defect C17/m13 (names / paths / keys with interior blanks and other legal characters)
+        "TestPlaceholders/name:interior_blank": 0.1, "TestPlaceholders/name:interior_tab": 0.015, "TestPlaceholders/name:non_ascii": 0.06,
+        "TestPlaceholders/name:punct": 0.08, "TestPlaceholders/blank_in:env_name": 0.06, "TestPlaceholders/blank_in:property_key": 0.06,
+        "TestPlaceholders/blank_in:property_path": 0.07, "TestPlaceholders/blank_named:resolves": 0.13,
+        "TestPlaceholders/blank_named:names_nothing": 0.04, "TestPlaceholders/blank_named:non_string_field": 0.11,
+        "TestPlaceholders/path:sub_dir": 0.08, "TestPlaceholders/path:non_ascii": 0.02, "TestPlaceholders/pad:some": 0.13,
+        "TestPlaceholders/pad:around": 0.028, "TestPlaceholders/pad:tabs": 0.025,
+        "TestMultiPlaceholders/name:interior_blank": 0.23, "TestMultiPlaceholders/blank_in:env_name": 0.19,
+        "TestMultiPlaceholders/blank_in:property_key": 0.09, "TestMultiPlaceholders/blank_in:property_path": 0.12,
+        "TestMultiPlaceholders/blank_named:names_nothing": 0.09, "TestMultiPlaceholders/blank_named:resolves": 0.25,
+        "TestMultiPlaceholders/pad:some": 0.27,
+        "TestScenarioPlaceholders/name:interior_blank": 0.1, "TestScenarioPlaceholders/blank_in:env_name": 0.06,
+        "TestScenarioPlaceholders/blank_in:property_key": 0.06, "TestScenarioPlaceholders/blank_in:property_path": 0.075,
+        "TestScenarioPlaceholders/blank_named:resolves": 0.14, "TestScenarioPlaceholders/blank_named:names_nothing": 0.03,
+        "TestScenarioPlaceholders/blank_named:non_string_field": 0.075, "TestScenarioPlaceholders/pad:some": 0.13,
+        "TestLongProperty/path:interior_blank": 0.14, "TestLongProperty/path:sub_dir": 0.16,
         # classes added after seeded defect C17/m12 (long property lines)
         "TestLongProperty/long_value": 0.45, "TestLongProperty/line:ge_4096": 0.3, "TestLongProperty/line:around_4096": 0.2,
         "TestLongProperty/line:4096..4102": 0.07, "TestLongProperty/line:8k..16k": 0.05, "TestLongProperty/line:16k..32k": 0.03,
@@ -157,7 +183,9 @@ SPEC = {
                  "name differing only in letter case or by one character is defined) and placeholders resolving to text that "
                  "is no value of the field must be rejected; a value holding several placeholders (string field, list item, map value) "
                  "decodes like the literal when all resolve and is rejected when any one of them - also one followed by resolving "
-                 "ones - names nothing. A ${property} placeholder whose line in the property file is long (4000 bytes - just under 64 KiB, other "
+                 "ones - names nothing. Variable names, property keys and property file paths are spelt plainly or with interior blanks, "
+                 "tabs, dots, dashes, other punctuation and non-ASCII letters, with and without padding blanks inside the braces; the "
+                 "same oracle holds for all of them. A ${property} placeholder whose line in the property file is long (4000 bytes - just under 64 KiB, other "
                  "lines before and after, `key=` text inside values) decodes like the whole value written literally, and is rejected when only text "
                  "inside another key's value names the key. The same literal-vs-placeholder comparison is made for every scalar "
                  "of generated scenario description files read by the scenario providers' reader. The CLI reader must decode discard_overflow as true exactly when the key is "
